@@ -99,6 +99,10 @@ pub struct Features {
     /// Statements (by shape) whose PREPARED answer carries the LWT mark on connections
     /// that negotiated the extension.
     pub lwt_marked_shapes: Vec<String>,
+    /// Statements prepared without result columns announce, in PREPARED, the very id of
+    /// their real result metadata (which the first execution then announces again, together
+    /// with the columns) instead of another one.
+    pub hidden_cols_same_id: bool,
     pub rate_limit_ext: bool,
     pub compression: Vec<String>,
     pub auth: bool,
@@ -116,6 +120,7 @@ impl Default for Features {
             metadata_id_ext_except: Vec::new(),
             lwt_ext: false,
             lwt_marked_shapes: Vec::new(),
+            hidden_cols_same_id: false,
             rate_limit_ext: false,
             compression: vec!["lz4".into(), "snappy".into()],
             auth: false,
@@ -949,7 +954,7 @@ pub fn builtin(w: &mut World, script: &mut dyn Script, rq: &ReqInfo, req: &Reque
             let hide_result_cols = stmt.kind == StmtKind::Lwt;
             // ... and the metadata id announced with the (empty) prepared metadata is not
             // the id of the real result metadata: the first execution learns the real one.
-            let mid = if hide_result_cols {
+            let mid = if hide_result_cols && !w.cluster.features.hidden_cols_same_id {
                 let mut m = mid.clone();
                 if let Some(b) = m.first_mut() {
                     *b ^= 0xff;
